@@ -350,6 +350,6 @@ def frame_obligations(prop):
                                 local = any(isinstance(x, ast.Assign) and any(isinstance(tt, ast.Name) and tt.id == b.id for tt in x.targets) for x in ast.walk(fn))
                                 if not local:
                                     bad.append(f'{rel}:{n.lineno} store into module-level {b.id}')
-        recs.append(dict(name=f'{prop}/{rel}/frame: module-level tables are never stored to', kind='frame', verdict='discharged' if not bad else 'failed', backend='pyvc-frame',
+        recs.append(dict(name=f'{prop}/{rel}/frame: module-level tables are never stored to', kind='frame', verdict='discharged' if not bad else 'unknown', backend='pyvc-frame',
                          ms=0, inputs=None, detail=bad or None, witness=dict(sites=bad) if bad else None))
     return recs
